@@ -73,7 +73,8 @@ def prepare(scratch, race=False, log=None):
     ov = os.path.join(VERIF, "overlay")
     subprocess.run(["rsync", "-a", ov + "/", repo + "/"], check=True)
     sim = os.path.join(scratch, "sim")
-    subprocess.run(["rsync", "-a", "--exclude", "go.mod", "--exclude", "go.sum", os.path.join(VERIF, "sim") + "/", sim + "/"], check=True)
+    simsrc = os.environ.get("VERIF_SIMDIR", os.path.join(VERIF, "sim"))
+    subprocess.run(["rsync", "-a", "--exclude", "go.mod", "--exclude", "go.sum", simsrc + "/", sim + "/"], check=True)
     # go.mod for the harness: same requirements as the repo (+ porcupine)
     req = []
     gm = open(os.path.join(REPO, "go.mod")).read()
